@@ -20,7 +20,7 @@
       FAILSWEEP t wall                   -> [TI calls; TI all failed; TI dump unchanged; TI later save ok]
       PROBE t wall chk                   -> [TI status+4*big; TI hash]  (load the file, flags-only hash)
       SLEEP t ms                         -> []                                      *)
-From Ferrous Require Import Base.Bytes Model.Resp Model.Types Model.Strings Model.Rdb.
+From Ferrous Require Import Base.Bytes Model.Resp Model.Types Model.Strings Model.Streams Model.Rdb.
 Open Scope Z_scope.
 
 Record mst := { m_ds : list db; m_disk : option bytes }.
@@ -125,9 +125,7 @@ Definition api_xdel (ds : list db) (i : Z) (k : bytes) (id : sid) : option (list
   | Some d =>
       match get_entry d k with
       | Some e => match e_val e with
-                  | VStream s => Some (set_dbi ds i (keep_exp d k
-                        (VStream {| s_entries := filter (fun en => negb (sid_eqb (fst en) id)) (s_entries s);
-                                    s_last := s_last s; s_groups := s_groups s |}) e))
+                  | VStream s => Some (set_dbi ds i (keep_exp d k (VStream (snd (st_delete s [id]))) e))
                   | _ => None
                   end
       | None => Some ds
